@@ -48,6 +48,32 @@ def modelTable (i : Inp) : Outcome (List (List Int)) :=
   | .err => .err
   | .panic => .panic
 
+/-- `usize::MAX` on the 64-bit target of the harness -/
+def usizeMax : Nat := 18446744073709551615
+
+/-- the model's answers to the harness's probes outside the table -/
+def probeRow (t : Table) (c : Nat) : Outcome (List Int) :=
+  t.allGens.foldr (fun g acc =>
+    match t.get c g, acc with
+    | .ok (some d), .ok r => .ok ((d : Int) :: r)
+    | .ok none, .ok r => .ok (-1 :: r)
+    | .panic, _ => .panic
+    | _, .panic => .panic
+    | _, _ => .err) (.ok [])
+
+def modelCt (i : Inp) : Outcome String :=
+  match cosetTable i.n (i.rels.map FW.new) (i.subs.map FW.new) with
+  | .ok t =>
+    match t.view, probeRow t t.len, probeRow t usizeMax with
+    | .ok v, .ok p1, .ok p2 =>
+      .ok s!"{encIntss v} {encTabOpt (renumberFrom (tabOfLists v) i.n 0)} {t.nrGens} {encInts p1} {encInts p2}"
+    | .panic, _, _ => .panic
+    | _, .panic, _ => .panic
+    | _, _, .panic => .panic
+    | _, _, _ => .err
+  | .err => .err
+  | .panic => .panic
+
 def outcomeStr {α} (f : α → String) : Outcome α → String
   | .ok a => f a
   | .err => "MODEL-FUEL"
@@ -61,13 +87,15 @@ def handler : Handler := fun op inp out =>
     let corpus := corpusClauses i.n i.rels i.d i.imgs i.order
     match op with
     | "ct" =>
-      let m := outcomeStr (fun v => s!"{encIntss v} {encTabOpt (renumberFrom (tabOfLists v) i.n 0)}") (modelTable i)
-      match run (do let t ← P.intss; let b ← P.intss; pure (t, b)) out with
+      let m := outcomeStr id (modelCt i)
+      match run (do let t ← P.intss; let b ← P.intss; let g ← P.nat; let p1 ← P.ints; let p2 ← P.ints
+                    pure (t, b, g, p1, p2)) out with
       | none => (m, fail "no-table-returned")
-      | some (tl, _) =>
+      | some (tl, _, g, p1, p2) =>
         let t := tabOfLists tl
         (m, check (corpus ++ validTableClauses t i.n i.rels i.subs ++
-          [("rows-equal-index", exactIndex t.size i.subs i.d i.imgs)]))
+          [("rows-equal-index", exactIndex t.size i.subs i.d i.imgs),
+           ("nr-gens-and-get-beyond-last-row-is-none", probesOk i.n g p1 p2)]))
     | "reps" =>
       match run (do let t ← P.intss; let r ← parseReps; pure (t, r)) out with
       | none =>
